@@ -152,7 +152,11 @@ class Formatter(BasicWalker[Retype]):
             if self.s.INCLUDE_COMMENTS and statement.comment:
                 for comment in statement.comment:
                     result += self._format_comment(comment)
-            result += self.visit(statement) + [Separators.Statement]
+            tokens: Retype = self.visit(statement)
+            if tokens and tokens[0] == "(" and statement is not node.statements[0]:
+                # a leading bracket would otherwise continue the previous statement
+                result.append(";")
+            result += tokens + [Separators.Statement]
         if node.returns is not None:
             opt_space: tuple[Separators, ...] = (
                 (Separators.Space,) if node.returns else ()
